@@ -60,6 +60,81 @@ _FIX = [
 ]
 
 
+# A Reset answering a NON notification is ignored by the tree (notes/C08.md, D3: a KNOWN FINDING, /repo stays
+# as it is; notes/C08-proposed-fix-rst-to-non.patch is the repair below as a diff): the message manager would
+# remember the NON responses it sent for NON_LIFETIME and treat a Reset carrying such a message ID like a
+# Reset to a confirmable message.  The entries of the catalogue run on the tree as it is (the known finding
+# prints KNOWN-FINDING lines, which do not count); only the entries about this repair apply it first.
+_FIX_RSTNON = [
+    (MM, "from .numbers.codes import EMPTY\n", "from .numbers.codes import EMPTY\nfrom .numbers.constants import TransportTuning\n"),
+    (
+        MM,
+        "        #: Maps pending remote/token combinations to the MID a response can be\n",
+        "        #: Recently sent NON responses whose sender wants to hear of their\n"
+        "        #: rejection: (remote, message-id): (messageerror_monitor, time sent),\n"
+        "        #: kept for NON_LIFETIME, oldest first\n"
+        "        self._recent_non_responses: Dict[\n"
+        "            Tuple[EndpointAddress, int], Tuple[Callable[[], None], float]\n"
+        "        ] = {}\n\n"
+        "        #: Maps pending remote/token combinations to the MID a response can be\n",
+    ),
+    (
+        MM,
+        "        if key not in self._active_exchanges:\n            # Before turning this up to a warning,",
+        "        if (\n"
+        "            key not in self._active_exchanges\n"
+        "            and message.mtype is RST\n"
+        "            and key in self._recent_non_responses\n"
+        "        ):\n"
+        "            # The peer rejects a non-confirmable response (eg. a notification\n"
+        "            # of an observation it does not know about any more): the sender\n"
+        "            # learns of it just like for a confirmable one, and what it still\n"
+        "            # has waiting for that remote is not sent either\n"
+        "            messageerror_monitor, _ = self._recent_non_responses.pop(key)\n"
+        "            if message.remote in self._backlogs:\n"
+        "                self._backlogs[message.remote] = [\n"
+        "                    (m, monitor)\n"
+        "                    for (m, monitor) in self._backlogs[message.remote]\n"
+        "                    if monitor is not messageerror_monitor\n"
+        "                ]\n"
+        "            messageerror_monitor()\n"
+        "            return\n\n"
+        "        if key not in self._active_exchanges:\n            # Before turning this up to a warning,",
+    ),
+    (
+        MM,
+        "            self._add_exchange(message, messageerror_monitor)\n\n        self._store_response_for_duplicates(message)\n",
+        "            self._add_exchange(message, messageerror_monitor)\n"
+        "        elif (\n"
+        "            message.mtype is NON\n"
+        "            and messageerror_monitor is not None\n"
+        "            and message.code.is_response()\n"
+        "        ):\n"
+        "            self._remember_non_response(message, messageerror_monitor)\n\n"
+        "        self._store_response_for_duplicates(message)\n",
+    ),
+    (
+        MM,
+        "    def _send_via_transport(self, message):\n",
+        "    def _remember_non_response(self, message, messageerror_monitor):\n"
+        '        """Keep the monitor of a NON response around for as long as a Reset\n'
+        "        answering it may arrive (NON_LIFETIME), so that the sender hears of\n"
+        '        the rejection."""\n\n'
+        "        tuning = TransportTuning()\n"
+        "        non_lifetime = tuning.MAX_TRANSMIT_SPAN + tuning.MAX_LATENCY\n"
+        "        now = self.loop.time()\n"
+        "        for key in list(self._recent_non_responses):\n"
+        "            if self._recent_non_responses[key][1] + non_lifetime > now:\n"
+        "                break\n"
+        "            del self._recent_non_responses[key]\n"
+        "        key = (message.remote, message.mid)\n"
+        "        self._recent_non_responses.pop(key, None)\n"
+        "        self._recent_non_responses[key] = (messageerror_monitor, now)\n\n"
+        "    def _send_via_transport(self, message):\n",
+    ),
+]
+
+
 def _fix():
     """Only the repairs the tree does not have yet."""
     out = []
@@ -73,6 +148,18 @@ def _fix():
     return out
 
 
+def _fix_rstnon():
+    """The Reset-to-NON repair as a whole, if the tree's message manager shows no trace of any such thing."""
+    try:
+        src = open("/repo/" + MM).read()
+    except OSError:
+        return []
+    if all(src.count(old) == 1 for _f, old, _n in _FIX_RSTNON) and "_recent_non" not in src:
+        return list(_FIX_RSTNON)
+    return []
+
+
+FIX_RSTNON = _fix_rstnon()
 FIX = _fix()
 
 MUTATIONS = [
@@ -108,14 +195,86 @@ MUTATIONS = [
                                                                               "                if not m.code.is_response()\n")]),
     ("C08", "trigger-slot-cleared-after-first-response", FIX + [(IF, "            pipe.add_response(first_response, is_last=False)\n",
                                                                  "            pipe.add_response(first_response, is_last=False)\n            if servobs._trigger.done():\n                servobs._trigger = asyncio.get_running_loop().create_future()\n")]),
-    ("C08", "rst-drops-whole-backlog-of-the-endpoint", FIX + [(MM, "                if monitor is not messageerror_monitor\n", "                if False\n")]),
+    ("C08", "rst-drops-whole-backlog-of-the-endpoint", FIX + [(MM, "                for (m, monitor) in self._backlogs.get(message.remote, [])\n                if monitor is not messageerror_monitor\n",
+                                                               "                for (m, monitor) in self._backlogs.get(message.remote, [])\n                if False\n")]),
     ("C08", "error-of-one-remote-stops-all-observers", FIX + [(TM, "            if remote == _r:\n                stoppers.append(stopper)\n",
                                                                "            if True:\n                stoppers.append(stopper)\n")]),
     ("C08", "shutdown-leaves-observations", FIX + [(TM, "            (_, stop) = self.incoming_requests.pop(key)\n            # This cancels them, not sending anything.", "            (_, stop) = self.incoming_requests.pop(key)\n            stop = lambda: None\n            # This cancels them, not sending anything.")]),
+]
+
+# -- extension: Block2 next to Observe, separate first responses, several resources, re-registration, NON + Reset --
+_CONTINUE_FIXME = (
+    "            first_response.opt.observe = next_observation_number = 0\n"
+)
+MUTATIONS += [
+    # a plain GET for a later block (another token!) is taken for the continuation of "the" exchange of that
+    # endpoint and replaces whatever the endpoint has running
+    ("C08", "ext-later-block-request-stops-the-endpoints-observations", FIX + [(TM, "        key = (request.token, request.remote)\n\n        if key in self.incoming_requests:\n",
+        "        key = (request.token, request.remote)\n\n"
+        "        if request.opt.block2 is not None and request.opt.block2.block_number > 0 and request.opt.observe is None:\n"
+        "            for k in [k for k in self.incoming_requests if k[1] == request.remote]:\n"
+        "                (_, stop) = self.incoming_requests.pop(k)\n"
+        "                stop()\n\n"
+        "        if key in self.incoming_requests:\n")]),
+    # notifications of a registration whose request carried Block2 do not count up
+    ("C08", "ext-observe-number-stuck-when-request-has-block2", FIX + [(IF, "                if not is_last:\n                    next_observation_number += 1\n",
+        "                if not is_last:\n                    next_observation_number += 1 if pipe.request.opt.block2 is None else 0\n")]),
+    # the first response is sent without the pipe's stopper as its error monitor: a Reset answering a SEPARATE
+    # first response does not end the registration
+    ("C08", "ext-reset-to-separate-first-response-not-monitored", FIX + [(TM, "                    stop,\n                )\n            else:\n",
+        "                    stop if m.opt.observe != 0 else (lambda: None),\n                )\n            else:\n")]),
+    # a request that arrives while the token's previous request is still waiting for its ACK is dropped
+    ("C08", "ext-new-request-during-first-rendering-dropped", FIX + [(MM, "                mid, old_handle = self._piggyback_opportunities.pop(key)\n                old_handle.cancel()\n",
+        "                mid, old_handle = self._piggyback_opportunities.pop(key)\n                old_handle.cancel()\n                handle.cancel()\n                return\n")]),
+    # the observer count a resource reports is the total over all observable resources
+    ("C08", "ext-observer-count-global-across-resources", FIX + [
+        (RS, "class ObservableResource(Resource, interfaces.ObservableResource):\n", "_ALL_OBSERVATIONS = set()\n\n\nclass ObservableResource(Resource, interfaces.ObservableResource):\n"),
+        (RS, "        self._observations.add(serverobservation)\n", "        self._observations.add(serverobservation)\n        _ALL_OBSERVATIONS.add(serverobservation)\n"),
+        (RS, "            self._observations.remove(serverobservation)\n            self.update_observation_count(len(self._observations))\n",
+             "            self._observations.remove(serverobservation)\n            _ALL_OBSERVATIONS.discard(serverobservation)\n            self.update_observation_count(len(_ALL_OBSERVATIONS))\n"),
+    ]),
+    # a renewed registration starts above the numbers of the previous one on that token, but its notifications
+    # count from 1 again: falling numbers inside ONE registration
+    ("C08", "ext-renewal-first-number-continued-notifications-restart", FIX + [
+        (IF, _CONTINUE_FIXME,
+         "            numbers = self.__dict__.setdefault('_verif_numbers', {})\n"
+         "            nkey = (pipe.request.remote, pipe.request.token)\n"
+         "            first_response.opt.observe = numbers.get(nkey, -1) + 1\n"
+         "            next_observation_number = 0\n"),
+        (IF, "                    response.opt.observe = next_observation_number\n",
+         "                    response.opt.observe = next_observation_number\n                    numbers[nkey] = next_observation_number\n"),
+    ]),
+    # blind seed C08-seed4: the first rendering of an accepted registration moved out of the try/finally, so a
+    # registration that ends during its first rendering (render raises, new request on the token, error, shutdown)
+    # never runs the cancellation callback
+    ("C08", "seed4-first-render-outside-try-finally", FIX + [("@patch", "notes/C08-seed4.diff", 2)]),
+    # the proposed repair of the Reset-to-NON finding made too broad
+    ("C08", "ext-reset-to-non-stops-every-pipe-of-the-endpoint", FIX + FIX_RSTNON + [(MM, "            messageerror_monitor, _ = self._recent_non_responses.pop(key)\n",
+        "            messageerror_monitor, _ = self._recent_non_responses.pop(key)\n"
+        "            self.token_manager.dispatch_error(error.MessageError(), message.remote)\n")]),
 ]
 
 CONTROLS = [
     ("C08", "proposed-fix-only", FIX),
     ("C08", "observe-numbers-step-two", FIX + [(IF, "                    next_observation_number += 1\n", "                    next_observation_number += 2\n")]),
     ("C08", "updated-state-iterates-a-copy", FIX + [(RS, "        for o in self._observations:\n", "        for o in list(self._observations):\n")]),
+    # the FIXME of _render_to_pipe carried out: Observe numbers per (remote, token), continued by a renewed
+    # registration (the statement constrains the numbers inside one registration only)
+    ("C08", "ext-observe-numbers-continue-across-renewal", FIX + [
+        (IF, _CONTINUE_FIXME,
+         "            numbers = self.__dict__.setdefault('_verif_numbers', {})\n"
+         "            nkey = (pipe.request.remote, pipe.request.token)\n"
+         "            first_response.opt.observe = next_observation_number = numbers.get(nkey, -1) + 1\n"
+         "            numbers[nkey] = next_observation_number\n"),
+        (IF, "                    response.opt.observe = next_observation_number\n",
+         "                    response.opt.observe = next_observation_number\n                    numbers[nkey] = next_observation_number\n"),
+    ]),
+    # the comment at the top of _render_to_pipe carried out: a request for a later block is no registration
+    ("C08", "ext-observe-ignored-on-later-block-requests", FIX + [(IF, "        if pipe.request.opt.observe != 0:\n            return await Resource._render_to_pipe(self, pipe)\n",
+        "        if pipe.request.opt.observe != 0 or (\n            pipe.request.opt.block2 is not None and pipe.request.opt.block2.block_number > 0\n        ):\n            return await Resource._render_to_pipe(self, pipe)\n")]),
+    # NON requests are remembered as well (a Reset then fails the request): nothing of C08
+    # the proposed repair of the known finding: with it the tree is silent, without any KNOWN-FINDING line
+    ("C08", "ext-proposed-reset-to-non-repair-only", FIX + FIX_RSTNON),
+    ("C08", "ext-non-requests-remembered-too", FIX + FIX_RSTNON + [(MM, "            and messageerror_monitor is not None\n            and message.code.is_response()\n        ):\n",
+        "            and messageerror_monitor is not None\n        ):\n")]),
 ]
